@@ -292,9 +292,21 @@ class CommandMixin(object):
                 cm.claim_refused = True
         if t == "release" and any(f.get("type") == "released" for f in rest):
             cm.released = True
+        # whatever the answer, the attempt named a mailbox: "something happened" to it as
+        # far as the must-delete rule is concerned (the server stamps refused attempts too)
+        target = None
+        if cm.bound:
+            if t in ("open", "close"):
+                mid = sub.msg.get("mailbox", cm.named)
+                target = (app, mid) if isinstance(mid, str) else None
+            elif t == "claim" and isinstance(sub.msg.get("nameplate"), str):
+                pn = sub.post.np(app, sub.msg["nameplate"])
+                target = (app, pn.mailbox) if pn is not None else None
         if track:
             self._track_incarnations(sub.pre, sub.post, sub.ev)
             self._post_track(cm, sub, t, None, rest, sub.ev.wall)
+        if target is not None:
+            self._touch(target, sub.ev.wall, False)
 
     # -------------------------------------------------------------- commands
     def _cmd_ping(self, cm, sub, rest, arg, now):
